@@ -477,6 +477,7 @@ Proof.
   destruct (dec_sp r1) as [u r2|?|]; [|early H|early H]. cbn [dlen] in H2.
   pose proof (dec_atom_len r2 _ (le_n _)) as H3.
   destruct (dec_atom r2) as [name r3|?|]; [|early H|early H]. cbn [dlen] in H3.
+  destruct (existsb (fun b => b2n b =? 43) tag); [early H|].
   destruct (bytes_eqb (ascii_upper name) (s2b "UID")).
   - pose proof (dec_sp_len r3 _ (le_n _)) as H4.
     destruct (dec_sp r3) as [u' r4|?|]; [|early H|early H]. cbn [dlen] in H4.
@@ -522,6 +523,13 @@ Lemma atom_ok_spec : forall s, atom_ok s = true -> s <> [] /\ forallb is_atom_ch
 Proof.
   intros s H. unfold atom_ok in H. apply andb_true_iff in H. destruct H as [H1 H2].
   split; [|exact H2]. destruct s; [discriminate|discriminate].
+Qed.
+
+Lemma tag_ok_spec : forall s, tag_ok s = true ->
+  atom_ok s = true /\ existsb (fun b => b2n b =? 43) s = false.
+Proof.
+  intros s H. unfold tag_ok in H. apply andb_true_iff in H. destruct H as [H1 H2].
+  split; [exact H1|]. apply negb_true_iff in H2. exact H2.   (* has_plus unfolds to the existsb *)
 Qed.
 
 Lemma upper_atom_char : forall c, is_atom_char (to_upper_b c) = true -> is_atom_char c = true.
@@ -972,13 +980,14 @@ Proof.
   unfold wf_cmd in Hwf. apply andb_true_iff in Hwf. destruct Hwf as [Htag Hwf].
   destruct (arity (c_name c)) as [n|] eqn:Ea; [|discriminate]. clear Hwf.
   destruct (wf_name _ _ Ea) as (Hn1 & Hn2 & Hn3).
-  destruct (atom_ok_spec _ Htag) as [Ht1 Ht2].
+  destruct (tag_ok_spec _ Htag) as [Htag' Hplus].
+  destruct (atom_ok_spec _ Htag') as [Ht1 Ht2].
   subst s. rewrite render_cmd_tail.
   unfold read_command.
   brw (dec_atom_app (c_tag c) (SP_ :: c_name c ++ args_tail (c_args c) tail) Ht1 Ht2 eq_refl).
   brw (dec_sp_atom (c_name c) (args_tail (c_args c) tail) Hn1 Hn2).
   brw (dec_atom_app (c_name c) (args_tail (c_args c) tail) Hn1 Hn2 (args_tail_nonatom _ _)).
-  rewrite Hn3. cbv zeta.
+  brw Hplus. rewrite Hn3. cbv zeta.
   set (h := handle_cmd cfg (fs_conn f) (c_name c) (args_tail (c_args c) tail)) in *.
   destruct Hr as [Hcalls Hr].
   assert (Hcalls' : forall f0calls k, In k (rev (h_calls h) ++ f0calls) -> In k f0calls \/
@@ -1003,7 +1012,8 @@ Lemma render_cmd_nonnil : forall c, wf_cmd c = true -> (0 < length (render_cmd c
 Proof.
   intros c H. pose proof (render_cmd_tail c []) as E. rewrite app_nil_r in E. rewrite E.
   unfold wf_cmd in H. apply andb_true_iff in H. destruct H as [H _].
-  destruct (atom_ok_spec _ H) as [Hn _]. destruct (c_tag c); [congruence|]. cbn [app length]. lia.
+  destruct (tag_ok_spec _ H) as [H' _].
+  destruct (atom_ok_spec _ H') as [Hn _]. destruct (c_tag c); [congruence|]. cbn [app length]. lia.
 Qed.
 
 Lemma arg_values_cons : forall c cs, arg_values (c :: cs) = arg_values [c] ++ arg_values cs.
